@@ -162,6 +162,16 @@ pub fn fill(seed: u32, len: usize) -> Vec<u8> {
     out
 }
 
+static FUZZ_MODE: AtomicBool = AtomicBool::new(false);
+/// Set by the coverage-guided targets: generators then leave out the few case classes that cost hundreds of milliseconds
+/// each (batches of 65 000+ items), which a corpus would otherwise collect and mutate for ever.
+pub fn set_fuzz_mode(on: bool) {
+    FUZZ_MODE.store(on, Ordering::Relaxed);
+}
+pub fn fuzz_mode() -> bool {
+    FUZZ_MODE.load(Ordering::Relaxed)
+}
+
 pub const SEED_ONES: u32 = 0xffff_ffff;
 pub const SEED_ASCII: u32 = 0xffff_fffe;
 /// the v2 signature repeated (content that looks like the start of a nested header)
